@@ -52,8 +52,10 @@ def exc_class(name):
     return EXC[name]
 
 
-def mk_exc(name, text):
-    return exc_class(name)(text)
+def mk_exc(name, text, nonstr=False):
+    # nonstr: the detail handed to the exception is not a str but an object whose str() is the text (an adapter
+    # wrapping a caught low-level error): str(SubscribeError(ConnectionError(t))) == t
+    return exc_class(name)(ConnectionError(text) if nonstr else text)
 
 
 class Call:
@@ -107,7 +109,7 @@ def make_adapter(S, sc, log):
             c.e = S.step_no
             c.outcome = out
             if isinstance(out, tuple) and out[0] == 'raise':
-                raise mk_exc(out[1], '%s failed for %s' % (name, item))
+                raise mk_exc(out[1], '%s failed for %s' % (name, item), nonstr=(len(out) > 2 and out[2] == 'nonstr' and out[1] != 'KeyError'))
             return out
 
         def issnapshot_available(self, item_name):
